@@ -274,7 +274,10 @@ def hasNonIdentParam : List FnArg → Bool
 
 /-- `impl_params`: the macro's own type parameter (generic dependency mode only), then the lifted ones -/
 def implParams (depMode : DepMode) (byValue : Bool) (tgParams : List GParam) : List GParam :=
-  (match depMode with | .generic => [implTParam byValue] | .concrete _ => []) ++ tgParams
+  -- `ParamsGenerator`: lifetimes first, then the macro's own parameter, then the others without defaults
+  tgParams.filter GParam.isLifetime ++
+  (match depMode with | .generic => [implTParam byValue] | .concrete _ => []) ++
+  (tgParams.filter (fun q => !q.isLifetime)).map GParam.stripDefault
 
 /-- `FnDelegationCodegen::gen_impl_block` -/
 def genImplBlock (opts : Opts) (traitRef : Toks) (ind : ImplIndirection) (tg : TraitGenerics)
